@@ -113,6 +113,9 @@ static inline struct FieldOperatorPart *FieldOperator_getPartFromRightIndex(stru
 #define BiRightIt_ctor1(x) (x)     /* iterator -> const_iterator */
 //@tu src/pomerol/FieldOperator.cpp
 //@maythrow FieldOperator_getBlockMapping FieldOperator_compute FieldOperator_getPartFromRightIndex
+/* twins for the other spelling of an increment (`++it` for `it++` and vice versa): same effect.  X_inc yields the iterator after the step
+ * (exact); X_postinc made from X_inc is void, so a use of its value does not compile (UNDECIDED) instead of being modelled wrongly */
+#define OpMapCXIt_postinc(it_) ((void)OpMapCXIt_inc(it_))
 //@function Pomerol::FieldOperator::getBlockMapping() const as FieldOperator_getBlockMapping
 //@end
 //@tu src/pomerol/FieldOperatorPart.cpp
